@@ -141,9 +141,12 @@ func checkFilter(r *Run, prog *Program, a *Anchors, pfx string) {
 						probs = append(probs, fmt.Sprintf("iteration %d evaluates element %s of %s; elements must be visited in ascending order from 0", n, shortKey(xa[1]), shortKey(xa[0])))
 					}
 				} else {
+					if isIterPart(sm.St, item, rv, "Value") {
+						continue // `it := input.MapRange(); for it.Next() { it.Value() }`
+					}
 					xc, ok := reflCall(item, "MapIndex")
 					if !ok {
-						probs = append(probs, "the evaluated item is not input.MapIndex(key): "+shortKey(item))
+						probs = append(probs, "the evaluated item is not input.MapIndex(key) / iterator.Value(): "+shortKey(item))
 						continue
 					}
 					xa := symArgs(sm.St, xc)
@@ -168,7 +171,8 @@ func checkFilter(r *Run, prog *Program, a *Anchors, pfx string) {
 							probs = append(probs, "what is appended is not exactly the element that was evaluated")
 						}
 					} else {
-						if len(ins.Args) != 3 || ins.Args[2].Key() != items[n] || !isMapKeyOf(sm.St, ins.Args[1], rv, int64(n)) {
+						okKey := len(ins.Args) == 3 && (isMapKeyOf(sm.St, ins.Args[1], rv, int64(n)) || sameIteration(sm.St, ins.Args[1], ins.Args[2], rv))
+						if len(ins.Args) != 3 || ins.Args[2].Key() != items[n] || !okKey {
 							probs = append(probs, "what is stored is not the evaluated entry under its own key")
 						}
 					}
@@ -267,6 +271,29 @@ func checkFilter(r *Run, prog *Program, a *Anchors, pfx string) {
 		}
 	}
 	r.Check(pfx+".filter-constructor", "writers", prog.pos(a.CreateFi.Pos()), n == 1, fmt.Sprintf("%d writers of Filter fields (expected one)", n))
+}
+
+// isIterPart: s = it.<part>() with it = rv.MapRange().
+func isIterPart(st *pstate, s, rv *Sym, part string) bool {
+	fn, _ := calleeOfSym(s)
+	if fn == nil || fn.Name() != part || fn.Pkg == nil || fn.Pkg.Pkg.Path() != "reflect" {
+		return false
+	}
+	a := symArgs(st, s)
+	if len(a) != 1 {
+		return false
+	}
+	if mc, ok := reflCall(a[0], "MapRange"); ok {
+		if ra := symArgs(st, mc); len(ra) == 1 && ra[0].Key() == rv.Key() {
+			return true
+		}
+	}
+	return false
+}
+
+// sameIteration: key = it.Key() and val = it.Value() of the same iterator, read in the same loop iteration.
+func sameIteration(st *pstate, key, val, rv *Sym) bool {
+	return isIterPart(st, key, rv, "Key") && isIterPart(st, val, rv, "Value") && key.iter == val.iter
 }
 
 // exitFact: is `const(n) < bound` (in any of its linear spellings) known false?
